@@ -46,9 +46,20 @@ func c08Lists(level int) []enumList {
 }
 
 func c08(ctx *Ctx) {
+	cases, want := c08Cases(ctx.Level)
+	runBehaviour(ctx, behaviour{Name: "enum", Cases: cases, Devs: c08Devs, Values: true,
+		OnProgram: func(sc *SCase, p *batch.Program) { c08Consts(ctx, sc, p, want[sc.ID]) },
+		DocFilter: func(sc *SCase, d *refmodel.Doc, tv refmodel.Verdict) bool {
+			return !strings.Contains(d.Class, "extra-key")
+		}})
+	ctx.Run.Assume("null for an optional enum-typed property is not judged (the statements define null only for numeric/string/array optionals and defaults)",
+		"enum value names that normalise to the same Go constant do not compile; that is C01's subject and such lists are not in this family")
+}
+
+func c08Cases(level int) ([]SCase, map[string][]string) {
 	var cases []SCase
 	want := map[string][]string{} // case id -> listed string values (for the constant check)
-	for _, l := range c08Lists(ctx.Level) {
+	for _, l := range c08Lists(level) {
 		for _, typed := range []bool{false, true} {
 			if typed && l.typ == "" {
 				continue
@@ -83,7 +94,7 @@ func c08(ctx *Ctx) {
 				if l.vals[0] != nil {
 					add("default", J{"type": "object", "properties": J{"o": ed}})
 				}
-				if ctx.Level >= 1 {
+				if level >= 1 {
 					add("defitem", J{"type": "object", "properties": J{"a": J{"type": "array", "items": J{"$ref": "#/$defs/E"}}}, "$defs": J{"E": e}})
 					add("root", space.Clone(e))
 					add("nested", J{"type": "object", "properties": J{"n": J{"type": "object", "properties": J{"r": e}, "required": A{"r"}}}})
@@ -91,13 +102,7 @@ func c08(ctx *Ctx) {
 			}
 		}
 	}
-	runBehaviour(ctx, behaviour{Name: "enum", Cases: cases, Devs: c08Devs, Values: true,
-		OnProgram: func(sc *SCase, p *batch.Program) { c08Consts(ctx, sc, p, want[sc.ID]) },
-		DocFilter: func(sc *SCase, d *refmodel.Doc, tv refmodel.Verdict) bool {
-			return !strings.Contains(d.Class, "extra-key")
-		}})
-	ctx.Run.Assume("null for an optional enum-typed property is not judged (the statements define null only for numeric/string/array optionals and defaults)",
-		"enum value names that normalise to the same Go constant do not compile; that is C01's subject and such lists are not in this family")
+	return cases, want
 }
 
 // c08Consts: for string enums the package exposes one typed constant per listed value whose value is that string.
